@@ -114,7 +114,7 @@ class Pipeline:
             dd = diff_tables(d2, df[[c for c in df.columns if not c.startswith('sample_')]], exact=True)
             if dd:
                 return VIOL(dict(sgn, kind='nosamples'), 'return_samples=False changes other columns: ' + dd)
-        if self.fit_too and len(devs) <= 1:
+        if self.fit_too and (devs in CORE_SETS or 'find_extrema_kwargs' in kw):
             from bycycle import Bycycle
             bm = Bycycle(center_extrema=kw['center_extrema'], burst_method=kw['burst_method'],
                          burst_kwargs=kw.get('burst_kwargs'), thresholds=kw.get('threshold_kwargs'),
@@ -157,8 +157,9 @@ def spaces(tier, seed):
                                 describe='all 5-letter words over 6 letters x 4 core option sets',
                                 bounds={'letters': al6, 'option_sets': len(CORE_SETS)}))
         singles = [d for d in S.option_sets(1) if d not in CORE_SETS]
-        out.append(ProductSpace('W(5,5)x1dev', S.word_dims(al5, 5) + [singles], ev,
-                                describe='all 5-letter words over 5 letters x every single deviation',
+        al5 = S.alphabet(4)
+        out.append(ProductSpace('W(4,5)x1dev', S.word_dims(al5, 5) + [singles], ev,
+                                describe='all 5-letter words over 4 letters x every single deviation',
                                 bounds={'letters': al5, 'option_sets': len(singles), 'max_deviations': 1}))
         alv = ['a', 's', 'l', 'v']
         out.append(ProductSpace('Wlen(4,6)xcore', S.word_dims(alv, 6) + [[(), ('amp', 'trough')]], ev,
